@@ -349,3 +349,92 @@ def build_extend_inner(pid, tier):
                        descr="extension roll-up: every declaration applied once; the claim and each deadline's memos move by the sums of the partitions' deltas; every extended partition is entered in the expiration queue at its new epoch; no collateral moves",
                        bounds='%d deadline(s) (concrete indices) with %s declaration(s) of one sector each; CUTS: deadline / partition / sector loading, extend_sector_committment (arbitrary well-formed result or refusal), Partition::replace_sectors (arbitrary recorded deltas), add_expiration_partitions (recorded)' % (len(sh), sh),
                        max_paths=100000, wall_s=600) for sh in shapes]
+
+
+# ---- validate_replica_updates: which sectors may take new data -----------------------------------------------------------------
+# CUTS (declared): is_sealed_sector (cid prefix check: arbitrary verdict), deadline_is_mutable (arbitrary verdict),
+# State::check_sector_active (arbitrary answer or failure), registered_update_proof (arbitrary proof type) and the comparison of proof types (arbitrary verdict).
+
+def run_validate_updates(n, all_or_nothing):
+    def run(E):
+        rt, rtref = new_rt(E)
+        env = E.ctx.env
+        RU = Fields('actors/miner/src/lib.rs', 'ReplicaUpdateInner')
+        SI = Fields('actors/miner/src/types.rs', 'SectorOnChainInfo')
+        ups, secs = [], []
+        for i in range(n):
+            dl = E.materialize('u64', 'upd%d.deadline' % i)
+            plen = E.materialize('usize', 'upd%d.proof_len' % i)
+            u = StructV('ReplicaUpdateInner', {RU['sector_number']: E.materialize('u64', 'upd%d.sector' % i), RU['deadline']: dl, RU['partition']: E.materialize('u64', 'upd%d.partition' % i)}, lazy='upd%d' % i)
+            ups.append(u)
+            s = StructV('types::SectorOnChainInfo', {}, lazy='sec%d' % i)
+            dw, vw = big(E, fget(E, s, SI['deal_weight'], 'BigInt')), big(E, fget(E, s, SI['verified_deal_weight'], 'BigInt'))
+            E.ctx.assume(z3.And(dw >= 0, vw >= 0))          # sector invariant: weights are non-negative
+            secs.append(dict(v=s, dw=dw, vw=vw))
+        env['ups'], env['secs'] = ups, secs
+        sealed, mutable, active = env.setdefault('sealed', []), env.setdefault('mutable', []), env.setdefault('active', [])
+        mkb = lambda lst, nm: (lambda E2, c: (lst.append(E2.ctx.fresh_bool(nm)) or lst[-1]))
+        E.cuts['is_sealed_sector'] = mkb(sealed, 'sealed_cid_ok')
+        for pre_ in ('', 'deadlines::'):
+            E.cuts[pre_ + 'deadline_is_mutable'] = mkb(mutable, 'deadline_mutable')
+        E.cuts['State::current_proving_period_start'] = lambda E2, c: E2.materialize('i64', E2.ctx.fresh_name('period_start'))
+
+        def cut_active(E2, c):
+            if E2.ctx.branch(E2.ctx.fresh_bool('active_check_fails')):
+                active.append(None)
+                return err(models_fvm.actor_error(E2, 20), c.dest_ty)
+            b = E2.ctx.fresh_bool('sector_active')
+            active.append(b)
+            return ok(b, c.dest_ty)
+        E.cuts['State::check_sector_active'] = cut_active
+        E.cuts['RegisteredSealProof::registered_update_proof'] = lambda E2, c: ok(LazyV(E2.ctx.fresh_name('expected_proof'), 'fvm_shared::sector::RegisteredUpdateProof'), c.dest_ty)
+        E.cuts['<RegisteredUpdateProof as PartialEq>::ne'] = lambda E2, c: E2.ctx.fresh_bool('proof_type_differs')
+        E.cuts['<RegisteredUpdateProof as PartialEq>::eq'] = lambda E2, c: E2.ctx.fresh_bool('proof_type_same')
+        pol = E.do_call(None, '<Policy as Default>::default', [], 'Policy')
+        st = Cell(LazyV('st', 'State'), 'st')
+        env['aon'] = all_or_nothing
+        fn = find_fn(E, MINER, 'validate_replica_updates')
+        return E.run_function(fn, [RefV(Cell(VecV(ups, 'Vec<ReplicaUpdateInner>'), 'ups'), ()), RefV(Cell(VecV([s['v'] for s in secs], 'Vec<SectorOnChainInfo>'), 'secs'), ()),
+                                   RefV(st, ()), RefV(Cell(pol, 'policy'), ()), E.materialize('i64', 'epoch'), OpaqueV('store', 'bs'), all_or_nothing]), rt
+    return run
+
+
+def props_validate_updates(E, res):
+    env = res.ctx.env
+    ctx = res.ctx
+    if res.kind != 'return':
+        return [tagged('ALL', 'no panic (%s)' % str(res.info)[:60], False)]
+    if is_err(res.value):
+        return []
+    RU = Fields('actors/miner/src/lib.rs', 'ReplicaUpdateInner')
+    tup = E.deref(res.value.fields[('Ok', 0)])
+    br = E.deref(fget(E, tup, 0, 'BatchReturn'))
+    fails = E.deref(fget(E, br, 1, 'Vec<FailCode>')).items
+    failed = set()
+    for f in fails:
+        i = zv(E.deref(E.deref(f).fields[0]))
+        if is_sym(i):
+            raise Inconclusive('symbolic fail index')
+        failed.add(int(i))
+    ups, secs = env['ups'], env['secs']
+    accepted = [i for i in range(len(ups)) if i not in failed]
+    P = [tagged('C10,C02', 'the result accounts for every update', implied(ctx, zv(E.deref(fget(E, br, 0, 'u32'))) == len(accepted)))]
+    for i in accepted:
+        P.append(tagged('C10', "only a sector that holds no data at all - neither plain nor verified - takes a replica update (verified weight stays backed by the sector's own claims)",
+                        z3.And(secs[i]['dw'] == 0, secs[i]['vw'] == 0)))
+        P.append(tagged('C02,C10', 'an accepted update names a deadline of the proving period', zv(fget(E, ups[i], RU['deadline'], 'u64')) < 48))
+        for j in accepted:
+            if j < i:
+                P.append(tagged('C10,C02', 'no sector is updated twice in one message', zv(fget(E, ups[i], RU['sector_number'], 'u64')) != zv(fget(E, ups[j], RU['sector_number'], 'u64'))))
+    return P
+
+
+def build_validate_updates(pid, tier):
+    wrap = lambda f: (lambda E, res: for_property(pid, f(E, res)))
+    O = []
+    for n in ([1, 2] if tier == 'quick' else [1, 2, 3]):
+        for aon in (False, True):
+            O.append(Obligation('miner.validate_replica_updates[updates=%d, %s]' % (n, 'all or nothing' if aon else 'best effort'), run_validate_updates(n, aon), wrap(props_validate_updates),
+                                descr='replica-update admission: only sectors without any data (plain or verified), each at most once per message, in a deadline of the proving period',
+                                bounds='%d update(s); CUTS: sealed-cid prefix check, deadline_is_mutable, check_sector_active, registered_update_proof (arbitrary verdicts)' % n, max_paths=50000, wall_s=300))
+    return O
